@@ -376,9 +376,10 @@ def build_scale_trace(B, A, want, meta, rng, cap):
                 if k == "D":
                     items.append((key, int(vb), int(va), h))
                 elif k == "E":
-                    # B = floor|ceil(b), A = floor|ceil(a) with |a - k*b| <= h0/2 (h0 separately rounded numbers):
-                    # |A - k*B| < 1 + h0/2 + k  =>  bound (h0 + 2 + 2*ceil(k))/2; h already holds h0 + 2
-                    items.append((key, int(vb), int(va), h + 2 * -(-want // B["upem"])))
+                    # a quantity derived from (at most two) glyph-box numbers that are ROUNDED reals on both sides:
+                    # B = b + eB, A = a + eA with |eB|, |eA| < 2 in total each and |a - k*b| <= h/2 (h separately rounded
+                    # stored numbers)  =>  |A - k*B| < h/2 + 2 + 2k: bound (h + 4 + 4*ceil(k))/2
+                    items.append((key, int(vb), int(va), h + 4 + 4 * -(-want // B["upem"])))
                 elif k == "M":
                     for x, y in zip(vb, va):
                         fm.append([key.strip() + ".FontMatrix", x, y])
